@@ -192,6 +192,7 @@ class ObliviousIterator():
         if self.ix is None:
             self.ix = self.start
             self.ctx.stack.append(WhileContext(self.ix!=self.stop,self.ctx))
+            self.ctx.stack[-1].lineno = None
             return self.ix
         else:
             self.ix += 1
